@@ -30,7 +30,7 @@ RULE = (
 )
 ASSUMPTIONS = [
     "the localisation weights are read through a harness-side wrapper on the instance's bandwidth estimator; the positive-definiteness clause is judged only when at least two grid points carry a share >= 1e-3 of the local weight (the property's proviso 'the localisation reaches at least one other grid point')",
-    "descriptors closer than 1e-9 (relative) to two grid points are ties: the case is skipped",
+    "descriptors closer than 1e-9 (relative) to two grid points are ties: the case is skipped; queries exactly half a cell from a descriptor / grid point along an axis are not compared under transformations; invariances are not demanded when a local covariance is ill conditioned (1/(1 - sum share^2) > 1e6) or a grid weight equals fpoints",
     "queries are never equal to a descriptor; closeness 1e-8 on log-densities (1e-6 for invariances)",
     "the form of the bandwidth heuristics (Silverman factor, shrinkage) is not asserted, only finiteness / symmetry / definiteness",
 ]
@@ -357,6 +357,28 @@ def check(case):
         r.outcome = [np.round(got[fin], 6).tolist()]
         return r
 
+    # conditioning of the local covariances: cov /= 1 - sum(share^2) amplifies rounding by kappa
+    if rec:
+        kappa = 0.0
+        for _, wl in rec:
+            tot = float(np.sum(wl))
+            if tot > 0:
+                kappa = max(kappa, 1.0 / max(1.0 - float(np.sum((wl / tot) ** 2)), 1e-300))
+        if kappa > 1e6:
+            r.count("invariances_unjudgeable_local_covariance_ill_conditioned")
+            r.outcome = [np.round(got[fin], 6).tolist()]
+            return r
+    # queries exactly half a cell away from a descriptor / grid point along an axis: either image is correct,
+    # and with a non-diagonal bandwidth the two images have different Mahalanobis distances (a tie)
+    tie_q = np.zeros(len(Q), bool)
+    if cell is not None:
+        cc = np.asarray(cell, float)
+        for P_ in (D, G):
+            fr = np.abs(np.mod((P_[None, :, :] - Q[:, None, :]) / cc, 1.0) - 0.5)
+            tie_q |= (fr < 1e-9).any(axis=(1, 2))
+        if tie_q.any():
+            r.count("queries_at_half_cell_not_compared", int(tie_q.sum()))
+
     def compare(tag, D2, w2, G2, Q2, kind):
         try:
             m2, _ = fit(D2, w2, G2)
@@ -365,8 +387,8 @@ def check(case):
             r.fail("transformed-fit-crash:%s" % type(e).__name__, "%s: %r" % (tag, e))
             return False
         r.states += 1
-        f2 = np.isfinite(g2) & fin
-        if not np.array_equal(np.isfinite(g2), fin) or (f2.any() and np.abs(g2[f2] - got[f2]).max() > 1e-6 * max(1.0, np.abs(got[f2]).max())):
+        f2 = np.isfinite(g2) & fin & ~tie_q
+        if not np.array_equal(np.isfinite(g2)[~tie_q], fin[~tie_q]) or (f2.any() and np.abs(g2[f2] - got[f2]).max() > 1e-6 * max(1.0, np.abs(got[f2]).max())):
             r.fail(kind, "%s: %s vs %s" % (tag, np.round(g2, 7).tolist(), np.round(got, 7).tolist()))
             return False
         return True
